@@ -40,7 +40,9 @@ def norm(s):
 
 
 WORDS = ["NOTE", "STYLE", "I'd", "o'clock", "'em", "the", "'90s", "'cause", "alpha", "beta", "R&D", "x<y", "a>b", "\"q\"", "it's", "&amp;", "&lt;", "<i>", "5", "ok.", "émigré", "—", "100%", "a;b", "#1",
-         "&apos;", "&quot;", "&nbsp;", "&#39;", "&#x27;", "&copy;", "&amp;lt;", "&gt", "AT&T;"]
+         "&apos;", "&quot;", "&nbsp;", "&#39;", "&#x27;", "&copy;", "&amp;lt;", "&gt", "AT&T;",
+         # brackets of every kind are text (a sound description, a placeholder), in every format
+         "{sighs}", "{Door", "slams}", "{name}", "[music]", "(off)", "{x", "y}"]
 
 
 def authored(rng):
